@@ -36,6 +36,11 @@ pub enum Probe {
     Damage { edits: Vec<(usize, u8)> },
     /// arbitrary bytes
     Bytes { bytes: Vec<u8> },
+    /// The datum inside a container file read by ONE long-lived reader: a first block of `first`
+    /// copies, then a block that declares `declared` objects but holds `whole` complete copies
+    /// followed by the first `tail` bytes of another one (byte size and marker consistent).
+    /// The missing object is a truncated datum: it must be an error, never a value.
+    Container { codec: u8, first: usize, declared: i64, whole: usize, tail: usize },
 }
 
 #[derive(Clone, Debug, Serialize, Deserialize)]
@@ -204,6 +209,106 @@ fn run_probe(case: &Case, p: &Prepared, probe: &Probe, ctx: &mut Ctx) -> Option<
         }
     };
     match probe {
+        Probe::Container { codec, first, declared, whole, tail } => {
+            let codec = match codec {
+                0 => refimpl::RCodec::Null,
+                1 => refimpl::RCodec::Deflate,
+                2 => refimpl::RCodec::Snappy,
+                3 => refimpl::RCodec::Zstd,
+                4 => refimpl::RCodec::Bzip2,
+                _ => refimpl::RCodec::Xz,
+            };
+            let (rs, _) = p.rs.as_ref()?;
+            let json = serde_json::to_string(&to_json(rs)).unwrap();
+            let mut meta = vec![("avro.schema".to_string(), json.into_bytes())];
+            if codec != refimpl::RCodec::Null {
+                meta.push(("avro.codec".to_string(), codec.name().as_bytes().to_vec()));
+            }
+            let marker = [0x3cu8; 16];
+            let mut file = refimpl::write_header(&meta, &marker);
+            let mut blk = vec![];
+            for _ in 0..*first {
+                blk.extend_from_slice(&p.bytes);
+            }
+            refimpl::write_block(&mut file, *first, &blk, &codec, &marker);
+            let mut blk = vec![];
+            for _ in 0..*whole {
+                blk.extend_from_slice(&p.bytes);
+            }
+            blk.extend_from_slice(&p.bytes[..(*tail).min(n.saturating_sub(1))]);
+            // write_block takes the count as usize: emit the declared count by hand
+            {
+                let payload = codec.compress(&blk);
+                refimpl::put_long(&mut file, *declared);
+                refimpl::put_long(&mut file, payload.len() as i64);
+                file.extend_from_slice(&payload);
+                file.extend_from_slice(&marker);
+            }
+            let complete = *first + *whole;
+            ctx.eval();
+            ctx.agg.count("probe.container_block_declares_more_than_it_holds");
+            for iter in ["value", "deser"] {
+                let r = guarded(|| -> (usize, usize, bool) {
+                    let mut oks = 0;
+                    let mut errs = 0;
+                    let mut wrong = false;
+                    let Ok(rd) = apache_avro::Reader::new(&file[..]) else { return (0, 1, false) };
+                    if iter == "value" {
+                        for (i, item) in rd.enumerate() {
+                            match item {
+                                Ok(v) => {
+                                    oks += 1;
+                                    if !avro_eq(&v, &p.expected) {
+                                        wrong = true;
+                                    }
+                                }
+                                Err(_) => errs += 1,
+                            }
+                            if i > complete + 8 {
+                                break;
+                            }
+                        }
+                    } else {
+                        anyvalue::reset_visits(u64::MAX);
+                        for (i, item) in rd.into_deser_iter::<AnyValue>().enumerate() {
+                            match item {
+                                Ok(_) => oks += 1,
+                                Err(_) => errs += 1,
+                            }
+                            if i > complete + 8 {
+                                break;
+                            }
+                        }
+                    }
+                    (oks, errs, wrong)
+                });
+                match r {
+                    Err(panic) => return Some(fail("panic", "container", format!("panic reading a block that declares more objects than it holds: {panic}"), probe)),
+                    Ok((oks, errs, wrong)) => {
+                        if oks > complete || wrong {
+                            return Some(Failure::new(
+                                "truncated-datum-accepted",
+                                format!("C06 truncated-datum-accepted decoder=container.{iter} node=block"),
+                                format!(
+                                    "a block declaring {declared} object(s) holds {whole} complete datum(s) and {} byte(s) of another; the reader delivered {oks} value(s) where only {complete} exist (invented from bytes that are not part of the block){} [probe={}]",
+                                    (*tail).min(n.saturating_sub(1)),
+                                    if wrong { ", not all equal to the written value" } else { "" },
+                                    serde_json::to_string(probe).unwrap()
+                                ),
+                            ));
+                        }
+                        if errs == 0 {
+                            return Some(Failure::new(
+                                "truncated-datum-accepted",
+                                format!("C06 truncated-datum-accepted decoder=container.{iter} node=block-silent"),
+                                format!("a block declaring {declared} object(s) holds only {whole}; the reader delivered {oks} value(s) and no error [probe={}]", serde_json::to_string(probe).unwrap()),
+                            ));
+                        }
+                    }
+                }
+            }
+            None
+        }
         Probe::Complete { chunk, eintr_every } => {
             let plan = SourcePlan { chunk: chunk.clone(), faults: vec![], eintr_every: *eintr_every };
             ctx.eval();
@@ -401,6 +506,15 @@ fn probes(case: &Case, p: &Prepared) -> Vec<Probe> {
     for _ in 0..6 {
         let len = r.usize_below(12);
         out.push(Probe::Bytes { bytes: r.bytes(len) });
+    }
+    if n > 0 && p.rs.is_some() {
+        // the stateful reader: a block that declares more objects than it holds, after a larger block
+        for codec in [0u8, 0, 1 + r.below(5) as u8] {
+            let first = 1 + r.usize_below(4);
+            out.push(Probe::Container { codec, first, declared: 2, whole: 1, tail: 0 });
+            out.push(Probe::Container { codec, first, declared: 1, whole: 0, tail: r.usize_below(n as usize) });
+            out.push(Probe::Container { codec, first, declared: 3, whole: 1, tail: 1 + r.usize_below(n as usize) - 1 });
+        }
     }
     out
 }
